@@ -25,4 +25,12 @@ func checkFormulaProperty(p *Program, c *Check, id string) {
 	}
 }
 
-var extraRules = map[string]func(p *Program, c *Check){}
+var extraRules = map[string]func(p *Program, c *Check){
+	"C09": func(p *Program, c *Check) {
+		funcs := p.requestPath(false)
+		sh := NewSharedInfo(p)
+		ruleOWN1(p, c, sh, funcs)
+		ruleOWN2(p, c, funcs)
+	},
+	"C01": func(p *Program, c *Check) { ruleOWN2(p, c, p.requestPath(false)) },
+}
